@@ -150,7 +150,7 @@ def install(R: Registry):
 
     # ------------------------------------------------------------------ the recording thread
     SHARED_MOD = sorted(set(INTERF_MOD + ["DataSet.rbuf", "DataSet.acc", "DataSet.next_subdivide", "DataSet.collection_stopped", "DataCollection.next_write", "DataCollection.start_time",
-                                          "DataCollection.ref_time", "DataCollection._recording", "DataCollection._paused"]))
+                                          "DataCollection.ref_time", "DataCollection._recording", "DataCollection._paused", "DataCollection._elapsed_time"]))
     INV_NOW = "INVS(st_a(self), st_b(self), pcW, dirty) and clean(self) and conserve_all(self)"
     FMT_OK = "forall('i:Int', implies(0 <= i and i < len(self.datasets), self.datasets[i].formatter != null))"
     R.contract(L + "DataCollection.trigger_write", tags="C17",
@@ -179,6 +179,12 @@ def install(R: Registry):
                                          "ite(selects(self.datasets[i], msg), appended(self.datasets[i].acc, old(self.datasets[i].acc), msg), self.datasets[i].acc == old(self.datasets[i].acc))))",
                                          "forall('i:Int', implies(idx <= i and i < len(self.datasets), self.datasets[i].acc == old(self.datasets[i].acc)))",
                                          "forall('i:Int', implies(0 <= i and i < len(self.datasets), self.datasets[i].msg_types == old(self.datasets[i].msg_types) and self.datasets[i].all_sub == old(self.datasets[i].all_sub)))"])})
+    UNTOUCHED = "forall('s:DataSet', s.acc == old(s.acc) and s.rbuf == old(s.rbuf))"
+    for fn in ("pause", "resume"):
+        R.contract(L + "DataCollection." + fn, tags="C17",
+                   requires=["wfc(self)", INV_NOW, "self.use_thread"], modifies=SHARED_MOD + ["DataCollection._elapsed_time"],
+                   ensures=[("C17", "wfc(self) and " + INV_NOW, "pause / resume leave the hand-shake alone"), ("C17", UNTOUCHED, "pause / resume neither record nor drop anything"),
+                            ("C17", "self._paused == %s and self._recording == old(self._recording)" % ("True" if fn == "pause" else "False"))])
     R.contract(L + "DataCollection.stop", tags="C17",
                requires=["wfc(self)", INV_NOW, FMT_OK],
                modifies=SHARED_MOD,
@@ -194,4 +200,4 @@ def install(R: Registry):
 
 
 LOGGER_SIDECARS = ["contracts.logger_contracts"]
-LOGGER_C17 = [L + "DataCollection.trigger_write", L + "DataCollection.update", L + "DataCollection.stop", D + "DataSet.stage_for_write", D + "DataSet.write", D + "DataSet.stop"]
+LOGGER_C17 = [L + "DataCollection.trigger_write", L + "DataCollection.update", L + "DataCollection.stop", L + "DataCollection.pause", L + "DataCollection.resume", D + "DataSet.stage_for_write", D + "DataSet.write", D + "DataSet.stop"]
